@@ -60,9 +60,18 @@ func genC07Timers(d *Draw) Case {
 func genC07(d *Draw) Case {
 	// node kinds beyond tasks and gateways: listening catch events, an armed event-based gateway, boundary
 	// listeners; the cancellation lands while they wait (or after some of their events arrived)
-	if fam := d.N(6); fam >= 2 {
+	if fam := d.N(7); fam >= 2 {
 		var inner Case
 		switch fam {
+		case 6:
+			// a process set: several instances, message flows, throws that instantiate waiting processes
+			sc := genC18(d).(*SetCase)
+			sc.Shutdown = true
+			sc.CancelAt = 1 + d.N(80)
+			if d.N(5) == 4 {
+				sc.CancelAt = 0
+			}
+			return sc
 		case 5:
 			inner = genC07Timers(d)
 		case 2:
@@ -141,7 +150,95 @@ func programKinds(g *Graph, out map[string]bool) {
 	}
 }
 
+// checkC07Set: the shutdown clauses for a process set (several instances, message flows between them).
+func checkC07Set(c *SetCase, r *simrt.Result) *Outcome {
+	o := &Outcome{}
+	var vl vlist
+	for _, p := range r.Panics {
+		vl.add("C07/panic", "%s", p)
+	}
+	cancelN, cancelled := 0, false
+	tracerDone, obsClosed, ended := false, false, false
+	waits, waitRets := 0, 0
+	for _, ev := range c.env.L.E {
+		switch ev.Kind {
+		case "cancel":
+			if !cancelled {
+				cancelled = true
+				cancelN = ev.N
+			}
+		case "req-live-after-cancel":
+			vl.add("C07/late-task-live-context", "step %d: TaskTrace %s observed after the cancel carries a context that is not cancelled", ev.Step, ev.A)
+		case "wait":
+			waits++
+		case "complete", "wait-panic":
+			waitRets++
+		case "tracer-done":
+			tracerDone = true
+		case "obs-closed":
+			obsClosed = true
+		case "end":
+			ended = true
+		case "fatal":
+			vl.add("C07/harness", "%s", ev.A)
+		}
+	}
+	if r.StepCap {
+		vl.add("C07/spinning", "the run hit the step cap (%d steps): after the cancel some goroutine keeps being runnable without the set coming to rest (busy loop)", r.Steps)
+	}
+	if r.Horizon {
+		vl.add("C07/harness", "simulated-time horizon hit")
+	}
+	if ended {
+		if waitRets < waits {
+			vl.add("C07/waiter-hangs", "%d of %d ProcessSet.WaitUntilComplete call(s) had not returned after the cancel", waits-waitRets, waits)
+		}
+		if !tracerDone {
+			vl.add("C07/tracer-not-done", "the set's Tracer().Done() was not closed after the cancel and a full quiescence period")
+		}
+		if !obsClosed {
+			vl.add("C07/subscriber-not-closed", "the subscriber channel of the set's tracer was not closed after the cancel")
+		}
+		var leaks []string
+		engine := 0
+		for _, g := range r.Live() {
+			if g.ID == 0 {
+				continue
+			}
+			leaks = append(leaks, fmt.Sprintf("g%d spawned at %s, %s at %s", g.ID, g.SpawnSite, g.State, g.Site))
+			if !strings.HasPrefix(g.SpawnSite, "drive.go") && !strings.HasPrefix(g.SpawnSite, "props") {
+				engine++
+			}
+		}
+		if engine > 0 {
+			vl.add("C07/goroutine-leak", "%d goroutine(s) started by the process set are still alive after the cancel: %s", engine, strings.Join(leaks, "; "))
+		}
+	} else if !r.StepCap && !r.Horizon {
+		vl.add("C07/harness", "driver did not reach its end")
+	}
+	o.Viol = vl.v
+	seen := map[string]bool{}
+	for _, g := range r.Live() {
+		if g.ID == 0 || strings.HasPrefix(g.SpawnSite, "drive.go") || strings.HasPrefix(g.SpawnSite, "props") || g.State != "blocked" {
+			continue
+		}
+		sig := "stuck:" + stripLine(g.SpawnSite) + ">" + stripLine(g.Site)
+		if !seen[sig] {
+			seen[sig] = true
+			o.Tags = append(o.Tags, sig)
+		}
+	}
+	o.Nontrivial = cancelled && r.Switches > 0
+	probe(o, "process-set", true)
+	probe(o, "process-set-cancel-landed-mid-flight", cancelN > 0)
+	o.Sample = map[string]any{"set": c.Desc, "cancelAtTrace": c.CancelAt, "landed": cancelN}
+	return o
+}
+
 func checkC07(cc Case, r *simrt.Result) *Outcome {
+	if sc, ok := cc.(*SetCase); ok {
+		return checkC07Set(sc, r)
+	}
 	c := cc.(*ProcCase)
 	o := &Outcome{}
 	var vl vlist
